@@ -87,6 +87,9 @@ pub struct OpDesc {
     pub via: String,
     #[serde(default = "dash")]
     pub s: String,
+    /// which store the call goes to ("" when the run has one store, "A" / "B" otherwise)
+    #[serde(default)]
+    pub st: String,
 }
 fn dash() -> String {
     "-".into()
@@ -507,6 +510,8 @@ pub struct Shared {
     pub subscriptions: Mutex<HashMap<String, Arc<Mutex<Box<dyn Subscription>>>>>,
     pub iters: Mutex<HashMap<String, BoxIter>>,
     pub signals: (Mutex<std::collections::HashSet<String>>, std::sync::Condvar),
+    /// subscriber objects registered in more than one store (two-store runs)
+    pub shared_subs: Arc<Mutex<HashMap<String, Arc<SSubscriber>>>>,
 }
 
 impl Shared {
@@ -517,6 +522,7 @@ impl Shared {
             subscriptions: Mutex::new(HashMap::new()),
             iters: Mutex::new(HashMap::new()),
             signals: (Mutex::new(Default::default()), std::sync::Condvar::new()),
+            shared_subs: Arc::new(Mutex::new(HashMap::new())),
         })
     }
 }
@@ -569,6 +575,21 @@ pub fn run_op(sh: &Arc<Shared>, o: &OpDesc) -> Value {
                     let d = json!({"what": "change", "who": id, "st": [], "a": a.id, "rd": envc.rd(), "effs": [], "val": v});
                     sched().point_of(Some(envc.epoch), Class::Gate, "cb", d);
                 })
+            } else if o.via == "shared" {
+                // the same subscriber object in every store it is registered in
+                let obj = sh
+                    .shared_subs
+                    .lock()
+                    .unwrap()
+                    .entry(o.s.clone())
+                    .or_insert_with(|| {
+                        Arc::new(SSubscriber {
+                            id: o.s.clone(),
+                            env: env.clone(),
+                        })
+                    })
+                    .clone();
+                store.add_subscriber(obj)
             } else {
                 store.add_subscriber(Arc::new(SSubscriber {
                     id: o.s.clone(),
@@ -676,13 +697,26 @@ pub fn run_op(sh: &Arc<Shared>, o: &OpDesc) -> Value {
 
 /// body of a client thread
 pub fn client_main(sh: Arc<Shared>, role: String, prog: Vec<OpDesc>) {
+    let mut m = HashMap::new();
+    m.insert(String::new(), sh);
+    client_main_multi(m, role, prog)
+}
+
+/// body of a client thread of a run with several stores: `stores` maps OpDesc.st to the store
+pub fn client_main_multi(stores: HashMap<String, Arc<Shared>>, role: String, prog: Vec<OpDesc>) {
     let s = sched();
     s.register(&role);
     s.point(Class::Gate, "start", json!(0));
     for o in prog.iter() {
-        let res = run_op(&sh, o);
+        let sh = match stores.get(&o.st) {
+            Some(sh) => sh,
+            None => continue,
+        };
+        s.set_cur_store(&sh.env.prefix);
+        let res = run_op(sh, o);
         s.point(Class::Gate, "op.end", json!({"op": o.op, "res": res}));
     }
+    s.set_cur_store("");
     s.point(Class::Final, "prog.end", json!(0));
 }
 
